@@ -335,6 +335,16 @@ def run(tier):
     block_scalar_stops_at_marker(rep, F)
     from . import markers
     rep.floor("document marker tests in the scanner", markers.check(rep, F), 4)
+    # the marker tests (next_is_document_indicator / _start / _end) look at four characters: they tell a marker from content only when those
+    # four have been requested before (the look-ahead contract of the Input trait, C01's `input-contract` rule, run here as a premise) - a test made
+    # on a shorter buffer misses a `...` / `---` line and the next document is swallowed into the last scalar of this one
+    if os.environ.get("VERIF_NO_PREMISE") != "1":
+        from . import C01 as _C01
+        _sub = _C01.run("quick")
+        _prem = [v for v in _sub.violations if v["rule"] in ("input-contract", "class-unreachable-panic") and "next_is_document" in v["key"]]
+        rep.check(not _prem, "marker-test-lookahead-premise", "next_is_document_*", "a document marker test can run on fewer characters than it looks at (%s): a marker line "
+                  "at column 0 is missed and the following document becomes scalar text" % "; ".join(sorted({v["key"][:90] for v in _prem})[:3]),
+                  detail={"violations_of_C01": len(_prem)})
     # a remembered absolute index is compared with the cursor's index, never with its column (a column agrees with the index on the first
     # line of a stream only: the same text would scan differently after an earlier document)
     from . import units
